@@ -874,6 +874,9 @@ class Interp:
         if isinstance(t, ast.Attribute):
             base = self.eval(t.value, st)
             if isinstance(base, VObj):
+                ak = (self.cur.get('attr_kinds') or {}).get(t.attr)
+                if ak == 'PresetDict' and isinstance(v, VDict) and v.kk == 'unknown':
+                    v = VOpaque('PresetDict', self.stubs._psym()['PD_EMPTY'])
                 base.fields[t.attr] = v
                 return
             raise EngineError(f'attribute store on {base!r}')
@@ -1028,6 +1031,8 @@ class Interp:
             return v.card > 0
         if isinstance(v, VTuple):
             return z3.BoolVal(len(v.items) > 0)
+        if isinstance(v, VOpaque) and v.tag == 'PresetDict':
+            return self.stubs._psym()['PD_NONEMPTY'](v.t)
         if isinstance(v, (VObj, VFunc)):
             return z3.BoolVal(True)
         raise EngineError(f'truth value of {v!r}')
@@ -1133,6 +1138,19 @@ class Interp:
         return self.stubs.set_from_items(self, st, items)
 
     def e_Dict(self, e, st):
+        if e.keys and all(k is None for k in e.keys):
+            # {**a, **b, ...} over opaque preset dictionaries: later operands win
+            vals = [self.eval(v, st) for v in e.values]
+            for j, v in enumerate(vals):
+                if isinstance(v, VOpt):
+                    self.oblige(st, f'not_none[**{self.src(e.values[j])}]', z3.Not(v.is_none))
+                    vals[j] = v.val
+            if all(isinstance(v, VOpaque) and v.tag == 'PresetDict' for v in vals):
+                r = vals[0].t
+                for v in vals[1:]:
+                    r = self.stubs._psym()['PD_MERGE'](r, v.t)
+                return VOpaque('PresetDict', r)
+            raise EngineError('dict unpacking of non-preset dictionaries')
         if e.keys and all(isinstance(k, ast.Constant) and isinstance(k.value, str) for k in e.keys):
             return VObj('dictlit', {k.value: self.eval(v, st) for k, v in zip(e.keys, e.values)})
         if e.keys:
